@@ -1,11 +1,19 @@
 import Pyrtma.Proofs.Registry
 import Pyrtma.Proofs.RegistryDetect
+import Pyrtma.Proofs.ResRegex
 /-!
 # C12 — id and name conflicts are always detected, never invented
 
 Theorems about `Model/Registry.lean` (the model of `Parser.parse / parse_file / parse_text / handle_*`), for **every**
 table of files, every import relation on it (repeats, diamonds, cycles, self imports, missing files), every root,
 with and without the shipped core definitions, every `MAX_MESSAGE_TYPES`.
+
+The reserved-id syntax is covered as it is parsed: `Model/ResRegex.lean` holds the regular expression of
+`handle_reserve` (pattern as data, backtracking matcher), `reserved_regex_is_rangeSearch` proves it equal to the scan
+`rangeSearch` on every string, `reserved_accepts_iff / reserved_sound / reserved_canonical / reserved_text_reserves /
+reserved_rejected` characterise the accepted language, the numbers read and what is rejected.  Not a theorem: that this
+matcher is CPython's `re` (decided on the implementation: the real `re.search` with the pattern read from the source,
+and `\s`, `[0-9]` over every code point, on every run).
 
 Reading guide: `flatten i` (Spec) is the import closure as the property describes it; `flawsOf` are the declarative
 conflict notions (two definitions claiming one key; an id outside its range); `parse i` is the model of the code.
@@ -294,6 +302,114 @@ theorem reserved_vs_message_detected (i : Input) (c₁ c₂ : Bool) (ids : Optio
     simpa [List.append_assoc] using this
   simp [Flaws.conflict, this]
 
+/-! ## the reserved-id syntax as `re` parses it (`Model/ResRegex.lean`)
+
+`handle_reserve` accepts an entry that is an `int` as a single id and runs
+`re.search(r"\s*(?P<start>[0-9]+)\s*(\-|to)\s*(?P<end>[0-9]+)\s*", e)` on an entry that is a `str`; everything else, a
+string without a match, `start > end` and a span of more than 100 ids are `RTMASyntaxError`s.  `reRange` is that
+`re.search` — the pattern with the backtracking semantics of CPython's matcher; `rangeSearch` is the deterministic
+scan all other theorems of this file use. -/
+
+open Pyrtma.ResRegex in
+/-- **The regular expression and the scan agree on every string** (start and end as `int()` reads them, or no match). -/
+theorem reserved_regex_is_rangeSearch (s : List Char) : reRange s = rangeSearch s := reRange_eq_rangeSearch s
+
+open Pyrtma.ResRegex in
+/-- **The accepted language, exactly**: a string entry has a match iff somewhere in it there is a run of ASCII
+digits, optional blanks (`\s`, Unicode blanks included), `-` or `to`, optional blanks, a run of ASCII digits.  What
+surrounds it is irrelevant (`search`); everything else is rejected. -/
+theorem reserved_accepts_iff (s : List Char) : (rangeSearch s).isSome = true ↔ InLang s := by
+  constructor
+  · intro h
+    cases hr : rangeSearch s with
+    | none => rw [hr] at h; cases h
+    | some r =>
+      obtain ⟨pre, d1, w1, sep, w2, d2, post, e, h1, h2, h3, h4, h5, h6, h7, _⟩ := rangeSearch_sound (a := r.1) (b := r.2) hr
+      exact ⟨pre, d1, w1, sep, w2, d2, post, e, h1, h2, h3, h4, h5, h6, h7⟩
+  · rintro ⟨pre, d1, w1, sep, w2, d2, post, rfl, h1, h2, h3, h4, h5, h6, h7⟩
+    apply rangeSearch_append_isSome
+    rw [rangeSearch_of_rangeAt (rangeAt_shape h1 h2 h3 h4 h5 h6 h7)]
+    rfl
+
+open Pyrtma.ResRegex in
+/-- **Soundness**: whatever is found is the value of a digit run followed — blanks aside — by `-` or `to` and the value
+of a *maximal* digit run (the text after it does not begin with a digit). -/
+theorem reserved_sound (s : List Char) (a b : Nat) (h : rangeSearch s = some (a, b)) :
+    ∃ pre d1 w1 sep w2 d2 post, s = pre ++ (d1 ++ (w1 ++ (sep ++ (w2 ++ (d2 ++ post))))) ∧
+      d1 ≠ [] ∧ d1.all isDigit = true ∧ w1.all isWs = true ∧ (sep = ['-'] ∨ sep = ['t', 'o']) ∧
+      w2.all isWs = true ∧ d2 ≠ [] ∧ d2.all isDigit = true ∧ NoHead isDigit post ∧
+      a = digitsVal d1 ∧ b = digitsVal d2 := rangeSearch_sound h
+
+open Pyrtma.ResRegex in
+/-- **Completeness on the intended language**: every way of writing `a-b` / `a to b` — any blanks before, between
+and after, any digit strings (leading zeros included) — yields exactly the two numbers written. -/
+theorem reserved_canonical (w0 d1 w1 sep w2 d2 w3 : List Char) (hw0 : w0.all isWs = true)
+    (h1 : d1 ≠ []) (hd1 : d1.all isDigit = true) (hw1 : w1.all isWs = true) (hsep : sep = ['-'] ∨ sep = ['t', 'o'])
+    (hw2 : w2.all isWs = true) (h2 : d2 ≠ []) (hd2 : d2.all isDigit = true) (hw3 : w3.all isWs = true) :
+    rangeSearch (w0 ++ (d1 ++ (w1 ++ (sep ++ (w2 ++ (d2 ++ w3)))))) = some (digitsVal d1, digitsVal d2) := by
+  rw [rangeSearch_skip_ws _ hw0, rangeSearch_of_rangeAt (rangeAt_shape h1 hd1 hw1 hsep hw2 h2 hd2)]
+  have : w3.takeWhile isDigit = [] := by
+    apply takeWhile_of_noHead
+    intro c t e; subst e
+    simp only [List.all_cons, Bool.and_eq_true] at hw3
+    exact ws_not_digit hw3.1
+  rw [this, List.append_nil]
+
+/-- `int()` of what Python's `str(n)` prints is `n` -/
+theorem digitsVal_repr (n : Nat) : digitsVal (toString n).toList = n := by
+  rw [Nat.toString_eq_repr, Nat.toList_repr]
+  exact Nat.ofDigitChars_ten_toDigits
+
+theorem repr_digits (n : Nat) : (toString n).toList ≠ [] ∧ (toString n).toList.all isDigit = true := by
+  rw [Nat.toString_eq_repr, Nat.toList_repr]
+  refine ⟨Nat.toDigits_ne_nil, ?_⟩
+  rw [List.all_eq_true]
+  intro c hc
+  have := Nat.isDigit_of_mem_toDigits (by decide) (by decide) hc
+  simpa [Char.isDigit, isDigit, Char.le_def] using this
+
+/-- leading zeros do not change the number -/
+theorem digitsVal_leading_zeros (k : Nat) (ds : List Char) : digitsVal (List.replicate k '0' ++ ds) = digitsVal ds := by
+  show Nat.ofDigitChars 10 _ 0 = Nat.ofDigitChars 10 _ 0
+  rw [Nat.ofDigitChars_append, Nat.ofDigitChars_replicate_zero, Nat.mul_zero]
+
+/-- **`"a-b"`, `"a to b"`, `" a  -\tb "`, … with `a ≤ b` and at most 100 ids reserve exactly `a … b`**, for the
+decimal spelling Python prints (the end-to-end statement: syntax, then `reserved_range_ids`). -/
+theorem reserved_text_reserves (w0 w1 sep w2 w3 : List Char) (a b : Nat) (hw0 : w0.all isWs = true)
+    (hw1 : w1.all isWs = true) (hsep : sep = ['-'] ∨ sep = ['t', 'o']) (hw2 : w2.all isWs = true)
+    (hw3 : w3.all isWs = true) (hab : a ≤ b) (hspan : b + 1 - a ≤ 100) (v : Nat) :
+    (Int.ofNat v ∈ reservedIds (some [.text
+      (w0 ++ ((toString a).toList ++ (w1 ++ (sep ++ (w2 ++ ((toString b).toList ++ w3))))))])) ↔ a ≤ v ∧ v ≤ b := by
+  apply reserved_range_ids _ a b _ hab hspan
+  have := reserved_canonical w0 (toString a).toList w1 sep w2 (toString b).toList w3 hw0 (repr_digits a).1 (repr_digits a).2
+    hw1 hsep hw2 (repr_digits b).1 (repr_digits b).2 hw3
+  rw [digitsVal_repr, digitsVal_repr] at this
+  exact this
+
+/-- what is rejected: no match, `start > end`, more than 100 ids — and every entry that is neither an int nor a
+string -/
+theorem reserved_rejected (s : List Char) :
+    expandEntry (.text s) = .error .resSyntax ↔
+      (rangeSearch s = none ∨ ∃ a b, rangeSearch s = some (a, b) ∧ (a > b ∨ b + 1 - a > 100)) := by
+  cases h : rangeSearch s with
+  | none => simp [expandEntry, h]
+  | some r =>
+    obtain ⟨a, b⟩ := r
+    simp only [expandEntry, h, Option.some.injEq, Prod.mk.injEq, reduceCtorEq, false_or]
+    constructor
+    · intro h1
+      refine ⟨a, b, ⟨rfl, rfl⟩, ?_⟩
+      by_cases h2 : a > b
+      · exact Or.inl h2
+      · by_cases h3 : b + 1 - a > 100
+        · exact Or.inr h3
+        · simp [h2, h3] at h1
+    · rintro ⟨a', b', ⟨rfl, rfl⟩, h2 | h2⟩
+      · simp [h2]
+      · by_cases h3 : a > b <;> simp [h2, h3]
+
+theorem reserved_other_rejected : expandEntry .other = .error .resSyntax := rfl
+
 /-! ## the oracle used on the implementation is the one the model always satisfies -/
 
 def obsOf (r : Except Err St) : Obs :=
@@ -360,5 +476,30 @@ example : rangeSearch "10 -- 12".toList = none := by decide
 example : expandEntry (.text "12-10".toList) = .error .resSyntax := by rfl
 example : expandEntry (.text "1-101".toList) = .error .resSyntax := by rfl
 example : expandEntry (.text "5-7".toList) = .ok [5, 6, 7] := by rfl
+
+/-- the regular expression itself (backtracking matcher), on the same strings and on near misses -/
+example : ResRegex.reRange "10-12".toList = some (10, 12) := by decide
+example : ResRegex.reRange " 10  to\t12 ".toList = some (10, 12) := by decide
+example : ResRegex.reRange "7 8 10-12-99".toList = some (10, 12) := by decide
+example : ResRegex.reRange "1e3-2e3".toList = some (3, 2) := by decide
+example : ResRegex.reRange "007-0012".toList = some (7, 12) := by decide
+example : ResRegex.reRange "10\u00a0-\u300012".toList = some (10, 12) := by decide     -- NBSP, IDEOGRAPHIC SPACE are `\s`
+example : ResRegex.reRange "10\u200b-12".toList = none := by decide                    -- ZERO WIDTH SPACE is not
+example : ResRegex.reRange "10 To 12".toList = none := by decide
+example : ResRegex.reRange "10 t o 12".toList = none := by decide
+example : ResRegex.reRange "١٠-12".toList = none := by decide                          -- ARABIC-INDIC digits are not `[0-9]`
+example : ResRegex.search ResRegex.rangeRe "x 007 -\t12y".toList = some [(0, "007".toList), (1, "12".toList)] := by decide
+/-- hypotheses of `reserved_canonical` / `reserved_text_reserves` are satisfiable -/
+example : rangeSearch (" ".toList ++ ("007".toList ++ ("\t".toList ++ (['t', 'o'] ++ ("  ".toList ++ ("12".toList ++ "\n".toList))))))
+    = some (7, 12) :=
+  reserved_canonical _ _ _ _ _ _ _ (by decide) (by decide) (by decide) (by decide) (Or.inr rfl) (by decide) (by decide)
+    (by decide) (by decide)
+example : (Int.ofNat 11 ∈ reservedIds (some [.text ("".toList ++ ((toString 10).toList ++ (" ".toList ++ (['-'] ++ (" ".toList ++
+    ((toString 12).toList ++ "".toList))))))])) :=
+  (reserved_text_reserves _ _ _ _ _ 10 12 (by decide) (by decide) (Or.inl rfl) (by decide) (by decide) (by decide) (by decide) 11).mpr
+    (by decide)
+example : ResRegex.InLang "ids 10 - 12 incl".toList :=
+  ⟨"ids ".toList, "10".toList, " ".toList, ['-'], " ".toList, "12".toList, " incl".toList, by decide, by decide, by decide,
+   by decide, Or.inl rfl, by decide, by decide, by decide⟩
 
 end Pyrtma.C12
